@@ -21,7 +21,7 @@
  *   SYNC <seq> <1 if any rank saw an error in call seq>
  *   HANG <seq>      this rank did not return from call seq within C11_API_ALARM seconds
  *   DONE
- * After every API call the ranks agree (MPI_Allreduce on MPI_COMM_WORLD) whether any of them saw an
+ * After every API call the ranks agree (MPI_Allreduce on a private duplicate of MPI_COMM_WORLD) whether any of them saw an
  * error; if so the scenario stops there (an application that checks errors collectively).  A rank
  * that never returns from the API call keeps the others in that Allreduce: the watchdog of the
  * caller then finds, from the logs, who returned and who did not.
@@ -36,6 +36,10 @@
 #include <pnetcdf.h>
 
 static int g_rank = 0, g_np = 1;
+/* the library works on its own duplicate of MPI_COMM_WORLD (PnetCDF does not duplicate MPI_COMM_WORLD itself),
+ * the harness synchronises on another one: a collective the library skipped can then never be matched by a
+ * collective of the harness */
+static MPI_Comm g_comm = MPI_COMM_NULL, g_sync = MPI_COMM_NULL;
 static FILE *g_log = NULL;
 static int g_armed = 0;        /* data-transfer calls are counted/injected only while armed */
 static int g_idx = 0;          /* index of the next data-transfer call on this rank */
@@ -137,7 +141,7 @@ static void api_done(const char *name, int ret, int nst, const int *st)
     }
     mine = (ret != NC_NOERR);
     for (i = 0; i < nst; i++) if (st[i] != NC_NOERR) mine = 1;
-    PMPI_Allreduce(&mine, &any, 1, MPI_INT, MPI_MAX, MPI_COMM_WORLD);
+    PMPI_Allreduce(&mine, &any, 1, MPI_INT, MPI_MAX, g_sync);
     if (g_log) { fprintf(g_log, "SYNC %d %d\n", g_apiseq, any); fflush(g_log); }
     g_apiseq++;
     if (any) g_stop = 1;
@@ -199,7 +203,7 @@ static void sc_create(const char *file)
     int ncid = -1, opened = 0, dx, dt, v1, v2, dims[2];
     MPI_Info info = mkinfo();
     g_armed = 1;
-    A("ncmpi_create", ncmpi_create(MPI_COMM_WORLD, file, NC_CLOBBER | NC_64BIT_DATA, info, &ncid));
+    A("ncmpi_create", ncmpi_create(g_comm, file, NC_CLOBBER | NC_64BIT_DATA, info, &ncid));
     opened = 1;
     A("ncmpi_def_dim", ncmpi_def_dim(ncid, "x", (MPI_Offset)NX * g_np, &dx));
     A("ncmpi_def_dim", ncmpi_def_dim(ncid, "t", NC_UNLIMITED, &dt));
@@ -222,7 +226,7 @@ static void sc_putrec(const char *file)
     MPI_Offset start[2], count[2];
     MPI_Info info = mkinfo();
     for (i = 0; i < NX; i++) buf[i] = 100 * g_rank + i;
-    P(ncmpi_create(MPI_COMM_WORLD, file, NC_CLOBBER, info, &ncid));
+    P(ncmpi_create(g_comm, file, NC_CLOBBER, info, &ncid));
     opened = 1;
     P(ncmpi_def_dim(ncid, "x", (MPI_Offset)NX * g_np, &dx));
     P(ncmpi_def_dim(ncid, "t", NC_UNLIMITED, &dt));
@@ -253,7 +257,7 @@ static void sc_redef(const char *file, int variant)
     MPI_Info info = mkinfo();
     for (i = 0; i < 2 * NX; i++) buf[i] = 1000 * g_rank + i;
     memset(big, 'a', sizeof(big));
-    P(ncmpi_create(MPI_COMM_WORLD, file, NC_CLOBBER, info, &ncid));
+    P(ncmpi_create(g_comm, file, NC_CLOBBER, info, &ncid));
     opened = 1;
     P(ncmpi_def_dim(ncid, "x", (MPI_Offset)NX * g_np, &dx));
     P(ncmpi_def_dim(ncid, "t", NC_UNLIMITED, &dt));
@@ -289,7 +293,7 @@ static void sc_fill(const char *file)
     MPI_Info info = mkinfo();
     for (i = 0; i < NX; i++) buf[i] = 7 * g_rank + i;
     g_armed = 1;
-    A("ncmpi_create", ncmpi_create(MPI_COMM_WORLD, file, NC_CLOBBER, info, &ncid));
+    A("ncmpi_create", ncmpi_create(g_comm, file, NC_CLOBBER, info, &ncid));
     opened = 1;
     A("ncmpi_set_fill", ncmpi_set_fill(ncid, NC_FILL, &old));
     A("ncmpi_def_dim", ncmpi_def_dim(ncid, "x", (MPI_Offset)NX * g_np, &dx));
@@ -324,7 +328,7 @@ static void sc_rw(const char *file)
     for (i = 0; i < 4 * NX; i++) buf[i] = 10000 * g_rank + i;
     MPI_Type_vector(NX, 1, 2, MPI_INT, &vec);
     MPI_Type_commit(&vec);
-    P(ncmpi_create(MPI_COMM_WORLD, file, NC_CLOBBER | NC_64BIT_OFFSET, info, &ncid));
+    P(ncmpi_create(g_comm, file, NC_CLOBBER | NC_64BIT_OFFSET, info, &ncid));
     opened = 1;
     P(ncmpi_def_dim(ncid, "y", 4, &dy));
     P(ncmpi_def_dim(ncid, "x", (MPI_Offset)NX * g_np, &dx));
@@ -366,7 +370,7 @@ static void sc_zero(const char *file)
     MPI_Offset start[1], count[1];
     MPI_Info info = mkinfo();
     for (i = 0; i < NX; i++) buf[i] = i;
-    P(ncmpi_create(MPI_COMM_WORLD, file, NC_CLOBBER, info, &ncid));
+    P(ncmpi_create(g_comm, file, NC_CLOBBER, info, &ncid));
     opened = 1;
     P(ncmpi_def_dim(ncid, "x", (MPI_Offset)NX * g_np, &dx));
     P(ncmpi_def_var(ncid, "a", NC_INT, 1, &dx, &v1));
@@ -405,7 +409,7 @@ static void sc_nb(const char *file)
     MPI_Offset start[2], count[2], s1[1], c1[1];
     MPI_Info info = mkinfo();
     for (i = 0; i < NX; i++) { buf[i] = 50 * g_rank + i; buf2[i] = -buf[i]; }
-    P(ncmpi_create(MPI_COMM_WORLD, file, NC_CLOBBER | NC_64BIT_DATA, info, &ncid));
+    P(ncmpi_create(g_comm, file, NC_CLOBBER | NC_64BIT_DATA, info, &ncid));
     opened = 1;
     P(ncmpi_def_dim(ncid, "x", (MPI_Offset)NX * g_np, &dx));
     P(ncmpi_def_dim(ncid, "t", NC_UNLIMITED, &dt));
@@ -463,7 +467,7 @@ static void sc_sync(const char *file)
     MPI_Offset start[2], count[2];
     MPI_Info info = mkinfo();
     for (i = 0; i < NX; i++) buf[i] = 3 * g_rank + i;
-    P(ncmpi_create(MPI_COMM_WORLD, file, NC_CLOBBER, info, &ncid));
+    P(ncmpi_create(g_comm, file, NC_CLOBBER, info, &ncid));
     opened = 1;
     P(ncmpi_def_dim(ncid, "x", (MPI_Offset)NX * g_np, &dx));
     P(ncmpi_def_dim(ncid, "t", NC_UNLIMITED, &dt));
@@ -504,7 +508,7 @@ static void sc_open(const char *file)
     MPI_Offset start[2], count[2];
     MPI_Info info = mkinfo();
     for (i = 0; i < NX; i++) buf[i] = 9 * g_rank + i;
-    P(ncmpi_create(MPI_COMM_WORLD, file, NC_CLOBBER | NC_64BIT_DATA, info, &ncid));
+    P(ncmpi_create(g_comm, file, NC_CLOBBER | NC_64BIT_DATA, info, &ncid));
     P(ncmpi_def_dim(ncid, "x", (MPI_Offset)NX * g_np, &dx));
     P(ncmpi_def_dim(ncid, "t", NC_UNLIMITED, &dt));
     P(ncmpi_def_dim(ncid, "z", 3, &dz));
@@ -521,7 +525,7 @@ static void sc_open(const char *file)
     P(ncmpi_put_vara_int_all(ncid, v[0], start, count, buf));
     P(ncmpi_close(ncid));
     g_armed = 1;
-    A("ncmpi_open", ncmpi_open(MPI_COMM_WORLD, file, NC_NOWRITE, info, &ncid));
+    A("ncmpi_open", ncmpi_open(g_comm, file, NC_NOWRITE, info, &ncid));
     opened = 1;
     A("ncmpi_inq_nvars", ncmpi_inq_nvars(ncid, &nvars));
     A("ncmpi_get_vara_int_all", ncmpi_get_vara_int_all(ncid, v[0], start, count, buf));
@@ -537,7 +541,7 @@ static void sc_attr(const char *file)
 {
     int ncid = -1, opened = 0, dx, v1;
     MPI_Info info = mkinfo();
-    P(ncmpi_create(MPI_COMM_WORLD, file, NC_CLOBBER, info, &ncid));
+    P(ncmpi_create(g_comm, file, NC_CLOBBER, info, &ncid));
     opened = 1;
     P(ncmpi_def_dim(ncid, "x", (MPI_Offset)NX * g_np, &dx));
     P(ncmpi_def_var(ncid, "a_long_variable_name", NC_INT, 1, &dx, &v1));
@@ -562,6 +566,10 @@ int main(int argc, char **argv)
     MPI_Init(&argc, &argv);
     MPI_Comm_rank(MPI_COMM_WORLD, &g_rank);
     MPI_Comm_size(MPI_COMM_WORLD, &g_np);
+    /* errors of communicator operations are returned, not fatal (inherited by the duplicates) */
+    MPI_Comm_set_errhandler(MPI_COMM_WORLD, MPI_ERRORS_RETURN);
+    MPI_Comm_dup(MPI_COMM_WORLD, &g_comm);
+    MPI_Comm_dup(MPI_COMM_WORLD, &g_sync);
     if (argc < 4) { fprintf(stderr, "usage: c11_fault scenario logprefix ncfile\n"); MPI_Abort(MPI_COMM_WORLD, 2); }
     sc = argv[1];
     snprintf(path, sizeof(path), "%s.%d", argv[2], g_rank);
@@ -586,8 +594,6 @@ int main(int argc, char **argv)
     fprintf(g_log, "START %s np %d rank %d fault rank %d index %d class %d perform %d\n", sc, g_np, g_rank,
             f_rank, f_index, f_class, f_perform);
     fflush(g_log);
-    /* errors of MPI-IO calls are returned, not fatal (default for files); communicator errors too */
-    MPI_Comm_set_errhandler(MPI_COMM_WORLD, MPI_ERRORS_RETURN);
 
     if (!strcmp(sc, "create")) sc_create(argv[3]);
     else if (!strcmp(sc, "putrec")) sc_putrec(argv[3]);
